@@ -10,7 +10,13 @@
 //       O p2d <ninit> <nfinish> <runs of the sorted executed pair codes i*grid+j>
 //   I wq <queueSize> <threads> <yseed> <op>...             op = a<k> (add k tasks) | f (flush); destructor at the end
 //       O wq <executed> <deleted> <completed at each flush return>...
-// P lines (the property's own predicates on the implementation): see each case.
+//   I petrace <threads> <times...> | <events...>         the callback-level trace of a `pe` case (callbacks and the caller's
+//       O petrace ok                                       execute() calls/returns in atomic-sequence order, workers named by
+//                                                          their model index = executed index mod threads): the Lean driver must
+//                                                          accept it as a run of the ParallelExecutor transition system WITHOUT
+//                                                          spurious wake-ups (trace inclusion implementation -> model)
+// P lines (the property's own predicates on the implementation): see each case.  Every record's I line is printed and
+// flushed BEFORE the executor runs; a watchdog thread turns a hang (no progress for 30 s) into `P no_deadlock <key> 1 0`.
 // rt: 0 FullMatrix, 1 HalfMatrix, 2 HalfPlusDiagonal.
 #include "SimTKcommon.h"
 #include "hcommon.h"
@@ -36,7 +42,7 @@ extern "C" long sysconf(int name) noexcept {
 }
 
 // ---------------------------------------------------------------------------------------------------------------
-enum Kind { K_INIT = 0, K_EXEC_B, K_EXEC_E, K_FIN_B, K_FIN_E };
+enum Kind { K_INIT = 0, K_EXEC_B, K_EXEC_E, K_FIN_B, K_FIN_E, K_CALL, K_RET };
 struct Ev { int kind, worker, round, a, b; };
 static std::vector<Ev> g_log;
 static std::atomic<size_t> g_seq{0};
@@ -66,6 +72,25 @@ static void perturb() {
 static void logEv(int kind, int a, int b) {
     size_t k = g_seq.fetch_add(1);
     if (k < g_log.size()) g_log[k] = Ev{kind, workerId(), g_round.load(), a, b};
+}
+static void logMain(int kind, int round) {          // events of the calling thread (not a worker)
+    size_t k = g_seq.fetch_add(1);
+    if (k < g_log.size()) g_log[k] = Ev{kind, -1, round, 0, 0};
+}
+// watchdog: a record whose executor call does not come back is reported instead of hanging the check
+static std::atomic<bool> g_caseBusy{false};
+static std::atomic<long long> g_caseStartMs{0};
+static std::string g_caseKey;
+static long long nowMs() { return std::chrono::duration_cast<std::chrono::milliseconds>(std::chrono::steady_clock::now().time_since_epoch()).count(); }
+static void caseBegin(const std::string& key) { g_caseKey = key; g_caseStartMs = nowMs(); g_caseBusy = true; std::fflush(stdout); }
+static void caseEnd() { g_caseBusy = false; vh::P("no_deadlock", g_caseKey, 0, 0); }
+static void watchdog() {
+    for (;;) {
+        std::this_thread::sleep_for(std::chrono::milliseconds(500));
+        if (g_caseBusy.load() && nowMs() - g_caseStartMs.load() > 30000) {
+            std::printf("P no_deadlock %s 1 0\n", g_caseKey.c_str()); std::fflush(stdout); _exit(0);
+        }
+    }
 }
 static void updMax(std::atomic<int>& m, int v) { int cur = m.load(); while (v > cur && !m.compare_exchange_weak(cur, v)) {} }
 static void newCase(uint64_t yseed, size_t cap) {
@@ -124,20 +149,23 @@ struct PETask : public ParallelExecutor::Task {
 
 static void peCase(int threads, uint64_t yseed, const std::vector<int>& times, const char* tag) {
     long total = 0; for (int t : times) total += t;
-    newCase(yseed, (size_t)(2 * total + (5 * (size_t)std::max(threads, 1) + 8) * times.size() + 64));
+    newCase(yseed, (size_t)(2 * total + (5 * (size_t)std::max(threads, 1) + 10) * times.size() + 64));
     std::vector<size_t> retSeq; std::vector<int> inflightAtReturn;
+    { vh::Line in = vh::I("pe"); in.i(threads).i((long long)yseed); for (int t : times) in.i(t); in.emit(); }
+    caseBegin("pe.execute.no_deadlock");
     {
         ParallelExecutor ex(threads);
         for (size_t r = 0; r < times.size(); ++r) {
             g_round = (int)r;
             PETask task;
+            logMain(K_CALL, (int)r);
             ex.execute(task, times[r]);
             inflightAtReturn.push_back(g_inFlight.load());
             retSeq.push_back(g_seq.load());
+            logMain(K_RET, (int)r);
         }
     }
     size_t nEv = std::min(g_seq.load(), g_log.size());
-    vh::Line in = vh::I("pe"); in.i(threads).i((long long)yseed); for (int t : times) in.i(t); in.emit();
     long onceViol = 0, orderViol = 0, retViol = 0; bool striped = true;
     for (size_t r = 0; r < times.size(); ++r) {
         std::vector<long> idx; std::vector<int> cnt(times[r] > 0 ? times[r] : 0, 0);
@@ -169,6 +197,33 @@ static void peCase(int threads, uint64_t yseed, const std::vector<int>& times, c
     vh::P("finish_mutually_exclusive", "pe.finish.overlap", (double)(g_finMax.load() > 1 ? g_finMax.load() - 1 : 0), 0);
     vh::P("execute_returns_after_all", "pe.execute.return", (double)retViol, 0);
     vh::P("log_capacity", "pe.harness.log", g_seq.load() > g_log.size() ? 1 : 0, 0);
+    caseEnd();
+    // ---- the callback-level trace, to be validated by the Lean driver as a run of the transition system
+    if (threads >= 2 && total <= 400 && g_seq.load() <= g_log.size()) {
+        // name the worker threads by their model index: a thread that executed index i is worker i mod threads; threads
+        // that never executed anything are interchangeable and get the unused indices
+        std::map<int, int> modelId; std::vector<bool> used(threads, false);
+        for (size_t k = 0; k < nEv; ++k) { const Ev& e = g_log[k];
+            if (e.kind == K_EXEC_B && e.worker >= 0 && !modelId.count(e.worker)) { modelId[e.worker] = e.a % threads; used[e.a % threads] = true; } }
+        int nextFree = 0;
+        for (size_t k = 0; k < nEv; ++k) { const Ev& e = g_log[k];
+            if (e.worker >= 0 && !modelId.count(e.worker)) { while (nextFree < threads && used[nextFree]) ++nextFree;
+                                                            modelId[e.worker] = nextFree < threads ? nextFree : 0; if (nextFree < threads) used[nextFree] = true; } }
+        vh::Line tr = vh::I("petrace"); tr.i(threads); for (int t : times) tr.i(t); tr.s("|");
+        for (size_t k = 0; k < nEv; ++k) { const Ev& e = g_log[k]; std::string w = e.worker >= 0 ? std::to_string(modelId[e.worker]) : "";
+            switch (e.kind) {
+            case K_CALL: tr.s("C" + std::to_string(e.round)); break;
+            case K_RET: tr.s("R" + std::to_string(e.round)); break;
+            case K_INIT: tr.s("i" + w); break;
+            case K_EXEC_B: tr.s("b" + w + ":" + std::to_string(e.a)); break;
+            case K_EXEC_E: tr.s("e" + w + ":" + std::to_string(e.a)); break;
+            case K_FIN_B: tr.s("f" + w); break;
+            case K_FIN_E: tr.s("g" + w); break; } }
+        tr.s("X");                                  // destructor ran to completion
+        tr.emit();
+        std::printf("O petrace ok\n");
+        vh::D("pe.trace_validated");
+    }
 }
 
 // ---------------------------------------------------------------------------------------------------------------
@@ -181,6 +236,7 @@ struct P2DTask : public Parallel2DExecutor::Task {
         if (okI && ++g_busy[i] > 1) g_shareViolations++;
         if (okJ && j != i && ++g_busy[j] > 1) g_shareViolations++;
         perturb();
+        if (g_busy.size() <= 16) std::this_thread::sleep_for(std::chrono::microseconds(30));   // small grids: make overlap observable
         if (okJ && j != i) --g_busy[j];
         if (okI) --g_busy[i];
         logEv(K_EXEC_E, i, j); g_inFlight--;
@@ -198,6 +254,8 @@ static void p2dCase(bool ext, int grid, int np, int rt, uint64_t yseed, long fak
     g_fakeCpus = fakeCpus;
     int ncpu = ParallelExecutor::getNumProcessors();
     size_t retSeq; int inflightAtReturn;
+    { vh::Line in = vh::I("p2d"); in.s(ext ? "ext" : "own").i(grid).i(np).i(rt).i((long long)yseed); if (ext) in.i(ncpu); in.emit(); }
+    caseBegin(std::string("p2d.") + (ext ? "ext_ctor" : "own_ctor") + ".no_deadlock");
     Parallel2DExecutor::RangeType R = rt == 0 ? Parallel2DExecutor::FullMatrix : rt == 1 ? Parallel2DExecutor::HalfMatrix
                                                                                      : Parallel2DExecutor::HalfPlusDiagonal;
     {
@@ -215,9 +273,6 @@ static void p2dCase(bool ext, int grid, int np, int rt, uint64_t yseed, long fak
     }
     g_fakeCpus = 0;
     size_t nEv = std::min(g_seq.load(), g_log.size());
-    vh::Line in = vh::I("p2d"); in.s(ext ? "ext" : "own").i(grid).i(np).i(rt).i((long long)yseed);
-    if (ext) in.i(ncpu);
-    in.emit();
     std::vector<long> codes; std::map<std::pair<int, int>, int> cnt; long onceViol = 0, retViol = inflightAtReturn;
     for (size_t k = 0; k < nEv; ++k) {
         const Ev& e = g_log[k];
@@ -249,6 +304,7 @@ static void p2dCase(bool ext, int grid, int np, int rt, uint64_t yseed, long fak
     vh::P("finish_mutually_exclusive", key + ".finish_overlap", (double)(g_finMax.load() > 1 ? g_finMax.load() - 1 : 0), 0);
     vh::P("execute_returns_after_all", key + ".return", (double)retViol, 0);
     vh::P("log_capacity", "p2d.harness.log", g_seq.load() > g_log.size() ? 1 : 0, 0);
+    caseEnd();
 }
 
 // ---------------------------------------------------------------------------------------------------------------
@@ -269,6 +325,8 @@ static void wqCase(int queueSize, int threads, uint64_t yseed, const std::vector
       for (auto& x : g_execCount) x = 0; for (auto& x : g_delCount) x = 0; }
     g_completed = 0;
     std::vector<long> atFlush; long added = 0, flushViol = 0;
+    { vh::Line in = vh::I("wq"); in.i(queueSize).i(threads).i((long long)yseed); for (auto& o : ops) in.s(o); in.emit(); }
+    caseBegin("wq.no_deadlock");
     {
         ParallelWorkQueue q(queueSize, threads);
         for (auto& o : ops) {
@@ -280,7 +338,6 @@ static void wqCase(int queueSize, int threads, uint64_t yseed, const std::vector
             }
         }
     }   // destructor: must complete the pending work
-    vh::Line in = vh::I("wq"); in.i(queueSize).i(threads).i((long long)yseed); for (auto& o : ops) in.s(o); in.emit();
     long execViol = 0, delViol = 0, nexec = 0, ndel = 0;
     for (long t = 0; t < total; ++t) {
         nexec += g_execCount[t]; ndel += g_delCount[t];
@@ -293,6 +350,7 @@ static void wqCase(int queueSize, int threads, uint64_t yseed, const std::vector
     vh::P("task_deleted_once", "wq.task.deleted_once", (double)delViol, 0);
     vh::P("flush_waits_for_all_prior", "wq.flush.prior_done", (double)flushViol, 0);
     vh::P("destructor_drains", "wq.dtor.drains", (double)(total - g_completed.load()), 0);
+    caseEnd();
 }
 
 // ---------------------------------------------------------------------------------------------------------------
@@ -321,6 +379,7 @@ static void replay() {
 
 int main(int argc, char** argv) {
     vh::Args args(argc, argv);
+    std::thread(watchdog).detach();
     if (args.mode == "replay") { replay(); return 0; }
     vh::Rng g(args.seed * 7919 + 33);
     static const int TH[] = {1, 2, 3, 4, 8, 16};
@@ -334,18 +393,20 @@ int main(int argc, char** argv) {
         int stream = g.below(20);
         uint64_t ys = g.next() % 1000000;
         int th = TH[g.below(5)];                                   // 1..8 threads
-        if (stream == 0) th = 16;                                  // small dedicated 16-thread stream
+        if (stream == 0) th = g.below(4) == 0 ? 32 : 16;           // small dedicated 16/32-thread stream (all three executors)
+        if (stream == 8 && g.coin()) th = 16;
+        if (stream == 15 && g.coin()) th = 16;
         if (stream <= 7) {                                         // ParallelExecutor
             int rounds = 1 + g.below(3);
             std::vector<int> times;
             for (int r = 0; r < rounds; ++r) {
                 int c = g.below(10);
-                times.push_back(c == 0 ? 0 : c == 1 ? g.below(th + 2) : c == 2 ? 1000 + g.below(1001) : g.below(200));
+                times.push_back(c == 0 ? 0 : c == 1 ? g.below(th + 2) : c == 2 ? (g.below(8) == 0 ? 5000 + g.below(5001) : 1000 + g.below(1001)) : g.below(200));
             }
             peCase(th, ys, times, stream == 0 ? "t16" : "mix");
         } else if (stream <= 14) {                                 // Parallel2DExecutor
             int c = g.below(8);
-            int grid = c == 0 ? g.below(4) : c == 1 ? 64 : g.below(65);
+            int grid = c == 0 ? g.below(4) : c == 1 ? (g.below(4) == 0 ? 128 : 64) : c == 2 ? 1 + g.below(16) : g.below(65);
             int rt = g.below(3);
             if (g.below(3) == 0) p2dCase(true, grid, th, rt, ys, 0, "mix");
             else p2dCase(false, grid, g.coin() ? th : 1 + g.below(40), rt, ys, 0, "mix");
